@@ -55,6 +55,28 @@ def curated_schemas():
     out.append([_rec("P", [("a", "int")]), {"type": "enum", "name": "Q", "symbols": ["S"]},
                 {"type": "fixed", "name": "Fz", "size": 1}, "P"][:3])
     out.append({"type": "int", "doc": "prim in dict form"})
+    # the same simple name in the null namespace and in a namespace: a simple-name reference
+    # inside the namespace denotes the namespaced type
+    out.append({"type": "record", "name": "Root", "fields": [
+        {"name": "u", "type": {"type": "enum", "name": "Unit", "symbols": ["A", "B"]}},
+        {"name": "r", "type": {"type": "record", "name": "geo.Reading", "fields": [
+            {"name": "gu", "type": {"type": "fixed", "name": "Unit", "size": 4}},
+            {"name": "ref", "type": "Unit"}, {"name": "refs", "type": {"type": "array", "items": "Unit"}}]}},
+        {"name": "u2", "type": "Unit"}]})
+    out.append({"type": "record", "name": "Root2", "fields": [
+        {"name": "r", "type": {"type": "record", "name": "geo2.Reading", "fields": [
+            {"name": "gu", "type": {"type": "fixed", "name": "Unit2", "size": 4}},
+            {"name": "ref", "type": ["null", "Unit2"]}]}},
+        {"name": "u", "type": {"type": "enum", "name": "Unit2", "symbols": ["A", "B"]}},
+        {"name": "u2", "type": "Unit2"}]})
+    # nested container defaults
+    out.append({"type": "record", "name": "NestedDefaults", "fields": [
+        {"name": "aa", "type": {"type": "array", "items": {"type": "array", "items": "int"}}, "default": [[1, 2], [3]]},
+        {"name": "ma", "type": {"type": "map", "values": {"type": "array", "items": "int"}}, "default": {"a": [1], "b": []}},
+        {"name": "ra", "type": {"type": "record", "name": "HasArr", "fields": [{"name": "xs", "type": {"type": "array", "items": "int"}}]},
+         "default": {"xs": [7, 8]}},
+        {"name": "ua", "type": [{"type": "array", "items": {"type": "map", "values": "int"}}, "null"], "default": [{"k": 1}]},
+        {"name": "b", "type": "int"}]})
     out.append(_rec("DictNull", [("a", {"type": "null"})]))
     return out
 
